@@ -154,4 +154,24 @@ theorem leB_sound (p q : RP) (h : leB p q = true) : Le p q := by
   obtain ⟨⟨⟨⟨⟨⟨⟨⟨⟨⟨⟨⟨h1, h2⟩, h3⟩, h4⟩, h5⟩, h6⟩, h7⟩, h8⟩, h9⟩, h10⟩, h11⟩, h12⟩, h13⟩ := h
   exact ⟨h1, h2, h3, h4, h5, h6, h7, h8, h9, h10, h11, h12, h13⟩
 
+/-- the estimate from a parameter set covers every flavour it is made for -/
+theorem estimate_le_usingCCtxParams (c : CPar) (mode : RowMode) (stream u : Bool) (hf : flavourCovered c mode stream u = true) :
+    estimate (rpOfCCtxParams c mode u stream) ≤ estimateUsingCCtxParams c mode stream := by
+  unfold estimateUsingCCtxParams
+  by_cases h : mode = RowMode.auto ∧ stream = false ∧ rowSupported c.strategy = true
+  · rw [if_pos h]
+    cases u
+    · exact Nat.le_max_right _ _
+    · exact Nat.le_max_left _ _
+  · rw [if_neg h]
+    unfold flavourCovered at hf
+    have hu : u = resolveRow mode c := by
+      rcases Bool.or_eq_true _ _ |>.mp hf with h1 | h2
+      · exfalso; apply h
+        simp only [Bool.and_eq_true, decide_eq_true_eq, Bool.not_eq_true'] at h1
+        exact ⟨h1.1.1, h1.1.2, h1.2⟩
+      · simpa using h2
+    rw [hu]
+    exact Nat.le_refl _
+
 end ZstdVerif.Estimate
